@@ -98,16 +98,16 @@ def run_config(batch, rec):
     rec.encodes(mp.MatrixProvider.calculate_dataset_matrix, mp.MatrixProvider.combine_megacomplex_matrices)
     rec.assume_note("specifications are per label; see C07 for the oscillation / shape closed forms used here")
     core.Ctx.generic_models = False
-    for cfg in batch["items"]:
+    def one(cfg):
         if cfg["kind"] == "decay":
             from harness import c04_kinetics as c04
 
-            c04._run_one(cfg["c04"], rec)  # labelled concentration columns against the rate equations, per declaration order
-            continue
+            return c04._run_one(cfg["c04"], rec)  # labelled concentration columns against the rate equations, per declaration order
         if cfg["kind"] == "datasets":
-            _run_datasets(cfg, rec)
-            continue
-        {"combine": _run_combine, "osc": _run_osc, "shapes": _run_shapes, "fixed": _run_fixed}[cfg["kind"]](cfg, rec)
+            return _run_datasets(cfg, rec)
+        return {"combine": _run_combine, "osc": _run_osc, "shapes": _run_shapes, "fixed": _run_fixed}[cfg["kind"]](cfg, rec)
+
+    rec.each(batch["items"], one)
 
 
 def _run_datasets(cfg, rec):
@@ -158,7 +158,7 @@ def _run_combine(cfg, rec):
                 rec.unexpected(ctx, f"{cfg['name']}: {type(out).__name__}: {out}", "labels:combine:exception", wit)
                 continue
             ds = cfg["datasets"][0]
-            pv = {lab: src.term(f"P_{lab}") for lab in pl.param_labels(cfg)}
+            pv = pl.with_expression_values(cfg, {lab: src.term(f"P_{lab}") for lab in pl.param_labels(cfg)})
             labels, entry, idx_dep = pl.spec_dataset_matrix(cfg, ds, src, pv)
             mat = np.asarray(out.matrix, dtype=object)
             items = [("clp labels = union of the megacomplexes' labels, each once",
@@ -350,7 +350,7 @@ def _replay_item(cfg):
                 opt.calculate_penalty()
                 mc = opt._optimization_groups[0]._matrix_provider.get_matrix_container("d1")
                 ds = cfg["datasets"][0]
-                pv = {lab: src.term(f"P_{lab}") for lab in pl.param_labels(cfg)}
+                pv = pl.with_expression_values(cfg, {lab: src.term(f"P_{lab}") for lab in pl.param_labels(cfg)})
                 labels, entry, idx_dep = pl.spec_dataset_matrix(cfg, ds, src, pv)
                 mat = np.asarray(mc.matrix, dtype=float)
                 if sorted(mc.clp_labels) != sorted(labels):
